@@ -594,12 +594,26 @@ def thread_const_bool_gotos(f):
         d = last['pl']['l']
         S = blocks[t['t']]
         ts = S['term']
-        if S['st'] or ts['k'] != 'switch' or ts['d'].get('k') not in ('copy', 'move') or ts['d']['pl']['p'] or ts['d']['pl']['l'] != d or reads.get(d, 0) != 1:
+        neg = False
+        if len(S['st']) == 1 and S['st'][0]['k'] == 'assign' and not S['st'][0]['pl']['p'] and S['st'][0]['rv']['k'] == 'unop' and S['st'][0]['rv'].get('op') == 'Not' \
+                and S['st'][0]['rv']['o'].get('k') in ('copy', 'move') and not S['st'][0]['rv']['o']['pl']['p'] and S['st'][0]['rv']['o']['pl']['l'] == d \
+                and ts['k'] == 'switch' and ts['d'].get('k') in ('copy', 'move') and not ts['d']['pl']['p'] and ts['d']['pl']['l'] == S['st'][0]['pl']['l'] \
+                and reads.get(d, 0) == 1 and reads.get(S['st'][0]['pl']['l'], 0) == 1:
+            # S is `n = !d; switch n` (`if !(a || b)`): same thing with the constant negated
+            neg = True
+        elif len(S['st']) == 1 and S['st'][0]['k'] == 'assign' and not S['st'][0]['pl']['p'] and S['st'][0]['rv']['k'] == 'use' \
+                and S['st'][0]['rv']['o'].get('k') in ('copy', 'move') and not S['st'][0]['rv']['o']['pl']['p'] and S['st'][0]['rv']['o']['pl']['l'] == d \
+                and ts['k'] == 'switch' and ts['d'].get('k') in ('copy', 'move') and not ts['d']['pl']['p'] and ts['d']['pl']['l'] == S['st'][0]['pl']['l'] \
+                and reads.get(d, 0) == 1 and reads.get(S['st'][0]['pl']['l'], 0) == 1:
+            pass        # S is `x = d; switch x`
+        elif S['st'] or ts['k'] != 'switch' or ts['d'].get('k') not in ('copy', 'move') or ts['d']['pl']['p'] or ts['d']['pl']['l'] != d or reads.get(d, 0) != 1:
             continue
         try:
             v = int(last['rv']['o'].get('int'))
         except (TypeError, ValueError):
             continue
+        if neg:
+            v = 1 - v
         tgt = next((tg for val, tg in ts['ts'] if int(val) == v), ts['o'])
         b['term'] = {'k': 'goto', 't': tgt, 'threaded': True}
         b['st'].pop()      # (the constant was only ever read by the branch that is now bypassed)
